@@ -311,7 +311,8 @@ class Rule(NamedBox):
         super().__post_init__()
         self.params = self.params or ()
         self.kwparams = self.kwparams or {}
-        self.decorators = self.decorators or []
+        # NOTE: a plain list, so repr() writes it with brackets
+        self.decorators = list(self.decorators or [])
 
         # pyrefly: ignore [unnecessary-type-conversion]
         self.is_name = bool(self.is_name) or 'name' in self.decorators
